@@ -601,7 +601,9 @@ class Stage:
                 self._initial.move_to_end(var, last=False)
         for_all_primitives(var, value, action, "First argument to set_initial must be a variable/signal or a simple concatenation of variables/signals")
         if self.master is not None and self.master.is_transcribed:
-            self._method.apply_initial(self._augmented, self.master._method, self._initial)
+            # Like at transcription: the guesses of every stage may depend on the symbol that was just given a guess
+            for s in self.master.iter_stages(include_self=True):
+                s._method.apply_initial(s._augmented, self.master._method, s._initial)
 
     def set_der(self, state, der, scale=1):
         r"""Assign a right-hand side to a state derivative
